@@ -29,7 +29,7 @@ RULE = (
 ASSUMPTIONS = ["the 'shutdown' request is a feature of the protocol, not abuse, and is not sent", "fake processes in the virtual lane"]
 
 
-QUICK_BUDGET = {"cases": 16000, "deadline_s": 170, "case_timeout_s": 120, "floors": {"accepted_tasks": 33236, "abusive_lines": 60000, "healthy_responses": 34884, "liveness_probes": 5600, "real_tasks": 20}}
+QUICK_BUDGET = {"cases": 16000, "deadline_s": 170, "case_timeout_s": 120, "floors": {"accepted_tasks": 33236, "abusive_lines": 60000, "healthy_responses": 34884, "liveness_probes": 5600, "real_tasks": 20, "state_replies_checked": 15000}}
 THOROUGH_FACTOR = 12  # thorough = the same workload with 12x the cases (floors scale along)
 
 
@@ -102,7 +102,13 @@ def gen_case(rng, idx, tier):
     for i in range(n):
         deps = sorted(rng.sample(range(i), min(i, rng.choice([0, 0, 1, 2])))) if i else []
         tasks.append({"deps": deps, "time_limit": rng.choice([None, None, 2, 5])})
-        healthy.append({"op": "send", "data": {"__kind__": "enqueue_task", "name": "n%d" % i, "script": "task:%d:" % i, "working_dir": "@WD@", "time_limit": tasks[-1]["time_limit"], "deps_idx": deps}})
+        enq = {"__kind__": "enqueue_task", "name": "n%d" % i, "script": "task:%d:" % i, "working_dir": "@WD@", "time_limit": tasks[-1]["time_limit"], "deps_idx": deps}
+        if rng.random() < 0.3:
+            # pipelined: the submission and a state query leave the client in ONE write, so the server reads the
+            # query without an event-loop turn after accepting the task
+            healthy.append({"op": "send", "batch": [enq, {"__kind__": "get_task_states"}]})
+        else:
+            healthy.append({"op": "send", "data": enq})
         if rng.random() < 0.4:
             healthy.append({"op": "send", "data": {"__kind__": "get_task_states"}})
         if rng.random() < 0.15:
@@ -154,8 +160,9 @@ def run_case(case):
         # bind the working directory into the scripted messages
         for c in case["clients"]:
             for s in c["script"]:
-                if isinstance(s.get("data"), dict) and s["data"].get("working_dir") == "@WD@":
-                    s["data"]["working_dir"] = d
+                for m in s.get("batch") or [s.get("data")]:
+                    if isinstance(m, dict) and m.get("working_dir") == "@WD@":
+                        m["working_dir"] = d
         h = vloop.run_harness(case, d)
         evaluate(h, res, d)
         res.sig = poolcase.event_string(h, 80)
@@ -193,8 +200,7 @@ def evaluate(h, res, workdir):
     # 2. healthy client: one response per request that has one, in order
     healthy_script = case["clients"][0]["script"]
     want_kinds = []
-    for s in healthy_script:
-        k = s["data"]["__kind__"]
+    for k in [m["__kind__"] for s in healthy_script for m in (s.get("batch") or [s["data"]])]:
         if k == "enqueue_task":
             want_kinds.append("task_enqueued")
         elif k == "get_task_states":
@@ -211,6 +217,23 @@ def evaluate(h, res, workdir):
         mine = [h.tid_of_idx.get(i) for i, t in enumerate(case["tasks"]) if not t.get("abuser")]
         if told != mine:
             res.violation("wrong-id", "healthy client was told ids %s for its tasks whose ids are %s" % (told, mine), **poolcase.witness(h))
+        # every state reply lists every task whose acceptance the same client was told BEFORE that reply, with a
+        # legal state, and a final state once reported never changes in a later reply
+        seen_ids, last = [], {}
+        for m in got:
+            if m["__kind__"] == "task_enqueued":
+                seen_ids.append(m["tid"])
+            elif m["__kind__"] == "task_states":
+                res.mon("state_replies_checked")
+                tasks_ = m.get("tasks") or {}
+                missing = [t for t in seen_ids if str(t) not in tasks_]
+                if missing:
+                    res.violation("state-query-incomplete", "a state reply to the healthy client does not list task(s) %s whose acceptance it had been told before (reply lists %s)" % (missing, sorted(tasks_)), **poolcase.witness(h))
+                    break
+                for t, v in tasks_.items():
+                    if last.get(t) in vloop.FINAL and v != last[t]:
+                        res.violation("illegal-transition", "task %s was reported %s and later %s" % (t, last[t], v), **poolcase.witness(h))
+                    last[t] = v
     res.mon("abusive_lines", sum(1 for e in h.events if e["kind"] == "client" and e["conn"] != 0))
     # 3. every accepted task final, in the state the model implies
     probe_tid = h.all_tids[-1] if h.probe is not None and h.all_tids else None
